@@ -29,7 +29,9 @@ FUNCTIONS = [
     'pymap.parsing.specials.sequenceset:SequenceSet.build', 'pymap.parsing.specials.sequenceset:SequenceSet._get_range',
     'pymap.parsing.specials.flag:Flag.parse', 'pymap.parsing.specials.flag:Flag.__init__',
     'pymap.parsing.commands:Commands.parse', 'pymap.parsing.command.nonauth:LoginCommand.parse',
-    'pymap.parsing.state:ExpectContinuation.consume',
+    'pymap.parsing.state:ExpectContinuation.consume', 'pymap.imap:IMAPConnection.readline',
+    'pymap.imap:IMAPConnection.read_continuation', 'pymap.imap:IMAPConnection.read_command',
+    'pymap.imap:IMAPConnection._interrupt',
 ]
 ASSUMPTIONS = [
     'value / buffer length <= the stated bound',
@@ -59,6 +61,13 @@ def setup() -> None:
     from pymap.parsing.command.nonauth import LoginCommand
     from pymap.parsing.modutf7 import modutf7_encode, modutf7_decode
     _g.update(locals())
+    from checks import _sim
+    for k, val in _sim.bindings().items():
+        _g.setdefault(k, val)
+    from pymap.imap import IMAPConnection
+    from pymap.context import connection_exit
+    from pymap.backend.dict import Login
+    _g.update(IMAPConnection=IMAPConnection, connection_exit=connection_exit, Login=Login)
 
 
 def _parse_with_conts(parse, buf, mk_params, follow):
@@ -182,6 +191,77 @@ def _h_spellings(n):
     return fn
 
 
+def conn_spellings(g, v, has_crlf, is_atom, mk, role='user'):
+    """LOGIN <user-spelling> <password-spelling> through the real connection loop
+    (IMAPConnection.readline / read_continuation / read_command): every pair of
+    spellings must be answered identically.  v: list of byte items."""
+    from checks import _conn, _sim
+    from checks.c09 import _Hash
+
+    class Cfg(g['Config']):
+        @property
+        def password_prep(self):
+            return lambda s: s
+    cfg = Cfg.from_args(_sim.FakeArgs(), hash_context=_Hash(), cpu_subsystem=g['Subsystem'].for_asyncio(),
+                        invalid_user_sleep=0.0)
+    pw = list(b'pw')
+
+    def spell(val, how):
+        n = len(val)
+        if how == 'nonsync':
+            return list(b'{%d+}\r\n' % n) + val
+        if how == 'sync':
+            return list(b'{%d}\r\n' % n) + val
+        if how == 'quoted':
+            return _quote(val)
+        return list(val)
+    hows_v = ['nonsync', 'sync'] + ([] if has_crlf else ['quoted']) + (['atom'] if is_atom else [])
+    hows_c = ['nonsync', 'sync', 'quoted', 'atom']
+    hows_u, hows_p = (hows_v, hows_c) if role == 'user' else (hows_c, hows_v)
+    results = {}
+    for hu in hows_u:
+        for hp in hows_p:
+            if role == 'user':
+                stream = list(b'a LOGIN ') + spell(v, hu) + [32] + spell(pw, hp) + [13, 10]
+            else:
+                stream = list(b'a LOGIN ') + spell(pw, hu) + [32] + spell(v, hp) + [13, 10]
+            stream += list(b'b NOOP\r\n')
+            login = g['Login'](cfg)
+            tr, state, exc = _conn.run_imap(g, login, cfg, [mk(stream)], local=True)
+            if exc is not None:
+                return 'connection raised %r for %s/%s' % (exc, hu, hp)
+            out = bytes(x if isinstance(x, int) else 63 for x in tr.output())
+            lines, conds = _conn.tagged(list(out))
+            extra = [t for t in conds if t not in (b'a', b'b')]
+            results[(hu, hp)] = (conds.get(b'a'), conds.get(b'b'), len(extra))
+    base = results[('nonsync', 'nonsync')]
+    for k, r in results.items():
+        if r != base:
+            return 'LOGIN spelled %s/%s answered %r, spelled {n+}/{n+} answered %r' % (k[0], k[1], r, base)
+    if base[0] != 'NO' or base[1] != 'OK' or base[2] != 0:
+        return 'unexpected baseline %r' % (base,)
+    return None
+
+
+def _h_conn_spellings(n, role='user', suffix=b''):
+    def fn(eng):
+        from pysymex import fresh_bytes, SymBytes, Outcome
+        v = fresh_bytes(eng, 'v', n)
+        for c in v.items:
+            eng.add(c.t < 128)
+        v = SymBytes(v.items + list(suffix), 'bytes')
+        wit = lambda m: {'v': bytes(v.eval(m)).hex(), 'role': role}  # noqa: E731
+        has_crlf = False
+        for c in v.items:
+            if c == 13 or c == 10:
+                has_crlf = True
+                break
+        is_atom = (not has_crlf) and len(v) > 0 and bool(_g['AString']._pattern.fullmatch(v.as_kind('memoryview')))
+        err = conn_spellings(_g, v.items, has_crlf, is_atom, lambda items: SymBytes(items, 'bytes'), role)
+        return Outcome(err is None, witness=wit, info=err)
+    return fn
+
+
 def _h_cmdcase():
     """letter case of the command word is irrelevant"""
     word = b'select'
@@ -299,6 +379,16 @@ def harnesses(tier):
     for n in range(0, (3 if q else 4) + 1):
         hs.append(Harness('login_spellings[len=%d]' % n, _h_spellings(n), {'value_len': n},
                           replay='spellings'))
+    for n in range(1, (2 if q else 3) + 1):
+        hs.append(Harness('login_spellings_connection[len=%d]' % n, _h_conn_spellings(n),
+                          {'value_len': n, 'spelling_pairs': 'up to 16 per path', 'bytes': '< 128'},
+                          replay='connspell', task_budget=20))
+    for n in range(1, (2 if q else 3) + 1):
+        hs.append(Harness('login_spellings_connection_last_arg[len=%d]' % n, _h_conn_spellings(n, 'pass'),
+                          {'value_len': n, 'role': 'last argument of the line'}, replay='connspell', task_budget=20))
+    hs.append(Harness('login_spellings_connection_last_arg[1+"{1+}"]', _h_conn_spellings(1, 'pass', b'{1+}'),
+                      {'value': '1 symbolic byte + "{1+}"', 'role': 'last argument of the line'},
+                      replay='connspell', task_budget=20))
     hs.append(Harness('command_case', _h_cmdcase(), {'word': 'SELECT, 2^6 case patterns as 6 symbolic bits'},
                       replay='cmdcase'))
     for n in range(0, (4 if q else 6) + 1):
@@ -371,6 +461,20 @@ def replay(harness, w):
         for c in cands:
             if getattr(c, 'userid', None) != v or getattr(c, 'password', None) != b'p':
                 bad.append('%s -> %r' % (type(c).__name__, getattr(c, 'userid', None)))
+    elif harness == 'connspell':
+        from checks import _sim
+        import pymap.parsing.specials as spec
+        g = _sim.bindings()
+        from pymap.imap import IMAPConnection
+        from pymap.context import connection_exit
+        from pymap.backend.dict import Login
+        g.update(IMAPConnection=IMAPConnection, connection_exit=connection_exit, Login=Login)
+        v = bytes.fromhex(w['v'])
+        has_crlf = b'\r' in v or b'\n' in v
+        is_atom = (not has_crlf) and bool(v) and bool(spec.AString._pattern.fullmatch(v))
+        err = conn_spellings(g, list(v), has_crlf, is_atom, lambda items: bytes(items), w.get('role', 'user'))
+        if err:
+            bad.append(err)
     elif harness == 'cmdcase':
         line = bytes.fromhex(w['line'])
         cmd, rest = Commands().parse(memoryview(line), Params())
